@@ -5,10 +5,10 @@ import os
 from . import common as c
 
 SUPPORT = ["Cache/PCache.v", "Cache/PCacheArr.v", "Cache/PCacheProbe.v", "Cache/PCacheInv.v", "Cache/PCacheProofs.v",
-           "Cache/LoadMap.v", "Cache/LoadMapProofs.v", "Cache/C09Model.v", "Cache/C09Thm.v"]
+           "Cache/LoadMap.v", "Cache/LoadMapProofs.v", "Cache/Served.v", "Cache/C09Model.v", "Cache/C09Thm.v"]
 
 CLAIM = {
-    "gens": ["CacheConsts", "LoaderMap"],
+    "gens": ["CacheConsts", "LoaderMap", "EncCacheKey"],
     "category": "proof",
     "text": ("Theorems (Coq, over an executable transcription of internal/caching/pcache.go and of loader.LoadMany/Load): for EVERY hash "
              "function of the type descriptors (collisions adversarial), every initial power-of-two capacity and every sequence of "
@@ -16,17 +16,19 @@ CLAIM = {
              "number of rehashes; the load invariant n <= cap/2 (constants regenerated from the source), no probe loop exits by exhausting "
              "its bound and insert never panics. loader.LoadMany serves EVERY item of every batch by its own machine code whatever the "
              "function names are (loadmany_own_code; the model follows the flag load_maps_by_name that the translator regenerates from "
-             "loader_latest.go - the pinned tree mapped results back by name, repaired by /repo cc3de94; a return to that shape breaks the proof). The model is tied to the real code by running the same op sequences through a verif hook (chosen hashes, "
+             "loader_latest.go - the pinned tree mapped results back by name, repaired by /repo cc3de94; a return to that shape breaks the proof). "
+             "served_history_free: the encoder program caches are keyed by (type, pointer-value flag) - key shape regenerated from "
+             "internal/encoder/vars/cache.go - so after EVERY history of FindOrCompile / pretouchType / pretouchRec calls the program that "
+             "serves (type, pv) is compile(type, pv) (false for the type-only key of the pinned tree, repaired by /repo ea86c56). The model is tied to the real code by running the same op sequences through a verif hook (chosen hashes, "
              "slot-layout digests) and LoadMany on stub functions. History independence of the public API (Marshal/Unmarshal after "
              "arbitrary preludes incl. Pretouch with compile options and thousands of types) is decided by differential runs in fresh "
              "child processes - tie/search half, not a theorem; the encoder/decoder compilers are not modelled here."),
     "note": ("Trusted: Coq kernel, extraction, the translator (constants only), the Go harness and the verif hook in internal/caching. "
-             "One genuine defect is recorded as known finding (encoder cache ignores the pointer-value flag); PretouchMany of same-printing types was repaired (cc3de94) and is a regression case."),
+             "Both genuine defects found here were repaired in /repo (cc3de94 loader maps by name, ea86c56 encoder cache ignores the pointer-value flag) and are regression cases."),
     "technique": "Coq proof over a hand-transcribed executable model + op-sequence correspondence + fresh-process differential search",
 }
 
 KF_LOAD = "KF-loadmany-same-name"
-KF_PV = "KF-encoder-pv-first-compile"
 
 
 def _run_model(mexe, cases, real, what, problems, mism):
@@ -45,6 +47,8 @@ def _run_model(mexe, cases, real, what, problems, mism):
             f = cs.split("\t")
             if f[0] == "P":
                 f[3] = ";".join(f[3].split(";")[:k + 1])
+            if f[0] == "S":
+                k = 0
             mism.append({"kind": what, "case": "\t".join(f), "first_differing_op": k,
                          "real": ra[k] if k < len(ra) else None, "model": rb[k] if k < len(rb) else None})
     return len(rl)
@@ -59,6 +63,7 @@ def run(ctx):
         "hand-transcribed model (Cache/PCache.v, Cache/LoadMap.v); only _LoadFactor/_InitCapacity are regenerated from the source; the transcription is tied by the op-sequence correspondence run, not by the translator",
         "theorem bound: number of Compute calls n with lf_den*(n+1) <= lf_num*2^31 (no uint32 overflow of the capacity), keys and computed values non-nil",
         "float64 load-factor comparison modelled as exact rational comparison (exact below 2^53)",
+        "served_history_free abstracts the compiler as a function compile(type, pv): that compile options (inline / recursion depth) do not change what a program computes is NOT proved",
         "history independence of the compiled encoders/decoders themselves (inline depth, recursion depth, Pretouch) is NOT a theorem: it is searched for with fresh child processes; option.WithCompileEncOnlyOmitNull is a documented semantic compile option and is excluded from preludes",
         "sort.Slice in makeModuledata is modelled by a stable insertion sort (items with empty text, i.e. equal entry offsets, are excluded)",
     ]
@@ -148,6 +153,29 @@ def run(ctx):
         if mok:
             ctx.cov["loader_batches_validated_against_impl"] = _run_model(mexe, lc, lr, "loader", problems, mism)
 
+    # ------------------------------------------------------------------ T2b: which program serves (type, pv): real vars.FindOrCompile & co
+    if replay_kind in (None, "served"):
+        sc, sr, sj = (os.path.join(work, x) for x in ("s.cases", "s.real", "s.json"))
+        cmd = [hb, "-mode", "served", "-seed", str(ctx.seed), "-cases", sc, "-real", sr, "-out", sj, "-corpus", corpus,
+               "-n", "400" if quick else "8000"]
+        if replay_kind:
+            cmd += ["-replay", ctx.replay]
+        rc, out = c.sh(cmd, env=c.GOENV, timeout=3000, check=False)
+        if rc != 0:
+            ctx.violation("served harness crashed: " + out[-1500:], {"output": out[-4000:]}, True)
+            return
+        rep = json.load(open(sj))
+        evals += rep["ops"]
+        distinct += rep["cases_touching_a_type_with_both_flags"]
+        dist["served"] = {k: rep[k] for k in ("cases", "ops", "op_kinds", "cases_touching_a_type_with_both_flags")}
+        for s in rep.get("samples") or []:
+            ctx.sample({"served": s[:300]})
+        for f in rep.get("failures") or []:
+            f["kind"] = "served"
+            real_fail.append(("encoder program cache: " + f["what"] + " (got %s, want %s, op %d)" % (f["got"], f["want"], f["op_index"]), f))
+        if mok:
+            ctx.cov["served_histories_validated_against_impl"] = _run_model(mexe, sc, sr, "served", problems, mism)
+
     # ------------------------------------------------------------------ T3 / search: public API in fresh processes
     if replay_kind in (None, "hist"):
         hj = os.path.join(work, "h.json")
@@ -185,7 +213,8 @@ def run(ctx):
     ctx.cov["evaluations"] = evals
     ctx.cov["distinct_nontrivial"] = distinct
     ctx.cov["rule"] = ("pcache: op sequences (Get/Compute/raw add/layout dump) with adversarial hash tables, non-trivial = at least two insertions; "
-                       "loader: LoadMany batches of stub functions; history: (prelude, probe set) pairs run in fresh child processes, "
+                       "loader: LoadMany batches of stub functions; served: histories of FindOrCompile/pretouch calls on the real encoder caches, "
+                       "non-trivial = some type is requested with both flag values; history: (prelude, probe set) pairs run in fresh child processes, "
                        "non-trivial = non-empty prelude or permuted probe order")
     ctx.cov["distribution"] = dist
     ctx.cov["model_mismatches"] = len(mism)
